@@ -50,18 +50,38 @@ followed by the leftover of `i`, is the list of all rows of `i`'s chunks — eve
 once and in the original (time) order. -/
 theorem rows_once_in_order (hlen : chunks.length = deps.length)
     (h : iterRun deps chunks strict = .ok r) :
-    ∀ i cs, chunks[i]? = some cs →
+    ∀ (i : Nat) cs, chunks[i]? = some cs →
       ∃ left, r.leftover[i]? = some left ∧ r.calls.flatMap (fun c => c.rowsOf i) ++ left = allRows cs := by
   intro i cs hi
   apply handedOver_index (rows_once_in_order_all hlen h) i (allRows cs)
   simp [hi]
+
+/-- same-kind inputs are row-aligned: if same-kind dependencies carry interval-equal rows over the
+whole run (`kindAlignedB`, what `Chunk.merge` takes for granted), then in every call their inputs
+are interval-equal row by row, whatever the chunkings. -/
+theorem calls_row_aligned {T0 : Int} (hlen : chunks.length = deps.length) (hT : StartAt T0 chunks)
+    (hk : kindAlignedB deps chunks = true) (h : iterRun deps chunks strict = .ok r) :
+    ∀ c ∈ r.calls, ∀ (i j : Nat) di dj, deps[i]? = some di → deps[j]? = some dj → di.kind = dj.kind →
+      (c.rowsOf i).map iv = (c.rowsOf j).map iv := by
+  intro c hc i j di dj hi hj hkind
+  have hi' : i < chunks.length := by rw [hlen]; exact (List.getElem?_eq_some_iff.mp hi).1
+  have hj' : j < chunks.length := by rw [hlen]; exact (List.getElem?_eq_some_iff.mp hj).1
+  have hci : chunks[i]? = some chunks[i] := List.getElem?_eq_getElem hi'
+  have hcj : chunks[j]? = some chunks[j] := List.getElem?_eq_getElem hj'
+  obtain ⟨li, _, ei⟩ := rows_once_in_order hlen h i _ hci
+  obtain ⟨lj, _, ej⟩ := rows_once_in_order hlen h j _ hcj
+  have hl : ∀ c ∈ r.calls, (c.rowsOf i).length = (c.rowsOf j).length :=
+    fun c hc => (calls_aligned hlen hT h c hc).2.2.2 i j di dj hi hj hkind
+  apply flatMap_aligned (fun c => c.rowsOf i) (fun c => c.rowsOf j) r.calls li lj hl _ c hc
+  rw [ei, ej]
+  exact kindAligned_get hk hi hj hci hcj hkind
 
 /-- a plugin that is saved by default never ends normally with rows left in a buffer: every row
 of every dependency was handed to `compute` (exactly once, in order). -/
 theorem saved_plugins_drop_nothing (hlen : chunks.length = deps.length)
     (h : iterRun deps chunks true = .ok r) :
     (∀ l ∈ r.leftover, l = []) ∧
-      ∀ i cs, chunks[i]? = some cs → r.calls.flatMap (fun c => c.rowsOf i) = allRows cs := by
+      ∀ (i : Nat) cs, chunks[i]? = some cs → r.calls.flatMap (fun c => c.rowsOf i) = allRows cs := by
   have hs := (iterRunP_ok hlen h).strictLeft rfl
   refine ⟨hs, ?_⟩
   intro i cs hi
@@ -82,7 +102,7 @@ beyond the common part, and rows left over at the end, therefore raise.) -/
 theorem no_silent_drop (hlen : chunks.length = deps.length) :
     match iterRun deps chunks true with
     | .error _ => True
-    | .ok r => ∀ i cs, chunks[i]? = some cs → ∀ row ∈ allRows cs, row ∈ r.calls.flatMap (fun c => c.rowsOf i) := by
+    | .ok r => ∀ (i : Nat) cs, chunks[i]? = some cs → ∀ row ∈ allRows cs, row ∈ r.calls.flatMap (fun c => c.rowsOf i) := by
   split
   · trivial
   · rename_i r h
@@ -94,11 +114,37 @@ theorem no_silent_drop (hlen : chunks.length = deps.length) :
 reported leftover — they come after everything that was handed over. -/
 theorem tolerant_drop_is_suffix (hlen : chunks.length = deps.length)
     (h : iterRun deps chunks false = .ok r) :
-    ∀ i cs, chunks[i]? = some cs →
+    ∀ (i : Nat) cs, chunks[i]? = some cs →
       ∃ left, allRows cs = r.calls.flatMap (fun c => c.rowsOf i) ++ left :=
   fun i cs hi => by
     obtain ⟨left, _, e⟩ := rows_once_in_order hlen h i cs hi
     exact ⟨left, e.symm⟩
+
+/-- whatever is left in a buffer at the end starts at or after the end of the last call … -/
+theorem leftover_starts_after_last_call {T0 : Int} (hlen : chunks.length = deps.length)
+    (hT : StartAt T0 chunks) (h : iterRun deps chunks strict = .ok r) :
+    ∀ left ∈ r.leftover, ∀ r0, left.head? = some r0 → lastStop T0 r.calls ≤ r0.time :=
+  (iterRunP_ok hlen h).after T0 hT
+
+/-- … so with time-sorted inputs every row that was not handed over starts at or after the end of
+the last call: no row inside the covered time range is ever skipped (either policy). -/
+theorem undelivered_rows_lie_after_last_call {T0 : Int} (hlen : chunks.length = deps.length)
+    (hT : StartAt T0 chunks) (h : iterRun deps chunks strict = .ok r) :
+    ∀ (i : Nat) cs, chunks[i]? = some cs → sortedByTimeB (allRows cs) = true →
+      ∀ left, r.leftover[i]? = some left → ∀ row ∈ left, lastStop T0 r.calls ≤ row.time := by
+  intro i cs hi hs left hl row hrow
+  obtain ⟨left', hl', e⟩ := rows_once_in_order hlen h i cs hi
+  rw [hl] at hl'
+  injection hl' with hl'
+  subst hl'
+  rw [← e] at hs
+  have hsuf := sortedB_suffix _ _ hs
+  match left, hrow, hl, hsuf with
+  | r0 :: rest, hrow, hl, hsuf =>
+    have h0 := leftover_starts_after_last_call hlen hT h (r0 :: rest) (List.mem_of_getElem? hl) r0 rfl
+    rcases List.mem_cons.mp hrow with e1 | e1
+    · subst e1; exact h0
+    · exact Int.le_trans h0 (sortedB_head_le r0 rest hsuf row e1)
 
 /-- an `ok` result means the re-trim loop never ran out of its ten passes: giving it more passes
 yields the same result.  This is why the theorems above need no `StaggerDepth ≤ 10` hypothesis. -/
